@@ -10,6 +10,7 @@ import Tahoe.Uri.Show
   `spr <deep> <hex>`                 -> hex                  strip_prefix_for_ro
   `cfc <deep> <w|N> <r|N>`           -> `K <node kind> ro mut` | `U err rw ro`   NodeMaker.create_from_cap (fresh)
   `slot <deep> <w|N> <r|N> <rk>`      -> `REFUSED e` | `NOTPACKABLE` | `STORED hex -> <reader node> auth=…`   set_uri+pack ro slot, reader
+  `unp <dirkind> <ro hex> <0|1>`      -> `VALUEERROR` | `DROPPED` | `CRASH` | `CHILD <node> auth=…`   _unpack_contents of one entry
   `hist c:<deep>:<w|N>:<r|N> …`      -> results joined by `;`   a history of create_from_cap on one NodeMaker -/
 open Tahoe.Drv Tahoe.Uri
 
@@ -138,8 +139,24 @@ def handleSlot : List String → String
     | _, _, _, _ => "bad-op"
   | _ => "bad-op"
 
+/-- `unp <SSKRO|MDMFRO|CHK|LIT> <ro hex> <0|1>`: one directory entry read by `_unpack_contents` (no write key) -/
+def handleUnp : List String → String
+  | [k, ro, rw] =>
+    match kindOfName k, bytesOfHex ro, parseBool rw with
+    | some dk, some roB, some rwNonEmpty =>
+      if dk == .sskRo || dk == .mdmfRo || dk == .chk || dk == .lit then
+        match unpackChild dk roB rwNonEmpty with
+        | .valueError => "VALUEERROR"
+        | .dropped => "DROPPED"
+        | .crash => "CRASH"
+        | .child n => s!"CHILD {showNode n} auth={showAuth n.authority}"
+      else "bad-op"
+    | _, _, _ => "bad-op"
+  | _ => "bad-op"
+
 def handleAll : List String → String
   | "hist" :: toks => handleHist toks
+  | "unp" :: toks => handleUnp toks
   | "slot" :: toks => handleSlot toks
   | toks => handle toks
 
